@@ -22,6 +22,7 @@ type lockOp struct {
 	base   string
 	kind   string // Lock | RLock | Unlock | RUnlock
 	defer_ bool
+	owner  *types.Named
 }
 
 func isMutexType(t types.Type) (bool, bool) {
@@ -81,7 +82,7 @@ func lockOps(fn *ssa.Function) []lockOp {
 			return
 		}
 		_, isDefer := ins.(*ssa.Defer)
-		out = append(out, lockOp{ins: ins, mutex: fv.Name(), base: objRoot(fa.X), kind: obj.Name(), defer_: isDefer})
+		out = append(out, lockOp{ins: ins, mutex: fv.Name(), base: objRoot(fa.X), kind: obj.Name(), defer_: isDefer, owner: NamedOf(fa.X.Type())})
 	})
 	return out
 }
@@ -351,6 +352,41 @@ func LockDiscipline(p *Program, rels []string) (findings []LockFinding, guarded 
 			kind = "written"
 		}
 		findings = append(findings, LockFinding{OK: false, Fn: a.Fn, Pos: a.Ins, Field: name, Detail: fmt.Sprintf("%s is written under %s elsewhere but %s here without holding it", name, m, kind)})
+	}
+	// a struct that declares a mutex nobody ever locks, while sibling fields
+	// of shared (not freshly allocated) objects are written: the declaration
+	// states the belief that the lock is needed, no code takes it
+	lockedOwners := map[*types.TypeName]bool{}
+	for _, fn := range fns {
+		for _, l := range ops[fn] {
+			if l.owner != nil && (l.kind == "Lock" || l.kind == "RLock") {
+				lockedOwners[l.owner.Obj()] = true
+			}
+		}
+	}
+	for _, a := range all {
+		if _, isGuarded := guardedBy[a.Field]; isGuarded || !a.Write || isFresh(a) || lockedOwners[a.Owner.Obj()] {
+			continue
+		}
+		name := ownerName(all, a.Field) + "." + a.Field.Name()
+		idx := -1
+		suffix := ""
+		for i, par := range a.Fn.Params {
+			if objRoot(par) == a.Base {
+				idx = i
+			} else if strings.HasPrefix(a.Base, objRoot(par)+".") {
+				idx = i
+				suffix = strings.TrimPrefix(a.Base, objRoot(par))
+			}
+		}
+		if idx >= 0 {
+			if ok, _ := callerHolds(a.Fn, idx, suffix, true, 0); ok {
+				findings = append(findings, LockFinding{OK: true, Fn: a.Fn, Pos: a.Ins, Field: name, Detail: "every caller holds the lock at the call (or owns a fresh object)"})
+				continue
+			}
+		}
+		findings = append(findings, LockFinding{OK: false, Fn: a.Fn, Pos: a.Ins, Field: name,
+			Detail: fmt.Sprintf("%s declares %v which no code locks any more, but %s is written here on a shared object", a.Owner.Obj().Name(), mutexFieldsOf(a.Owner), name)})
 	}
 	// re-entrancy: a method that holds a lock of its receiver calls a method of the same receiver that takes it
 	takes := map[*ssa.Function]map[string]bool{}
